@@ -11,9 +11,12 @@ import parsecheck as PC
 
 UA = minibase.UA
 MODULE = "OpcuaModel.Props.C03"
+EXTRA_AUDIT = [("OpcuaModel.Gen.NodeIdTie", "Opcua.Tie.")]
 TRUSTED_BASE = [
     "Lean 4.33.0 kernel; axioms audited (subset of propext, Classical.choice, Quot.sound)",
-    "hand model Model/Parse.lean (addUri, extendNs, nsMapOf, withUA, namespaceListOfDict, parseDoc, parseFiles) tied to /repo by this correspondence run",
+    "hand model Model/Parse.lean (addUri, extendNs, nsMapOf, withUA, namespaceListOfDict, parseDoc, parseFiles) tied to /repo by this correspondence run; "
+    "extend_namespace_map is also regenerated from the source on every run (translator/py2lean.py, procedure mode) and Gen/NodeIdTie.lean proves that the generated "
+    "definition, started with {0: 0}, returns exactly (nsMapOf, extendNs) of the hand model (extend_eq, gen_extend_correct); coverage.translator_tie says which case applied",
     "lxml infoset; Python list.index / dict semantics as modelled; driver, harness, abstract-graph oracle",
 ]
 ASSUMPTIONS = [
@@ -67,6 +70,9 @@ def impl_ns_helpers(run):
 def explore(run):
     rng = run.rng
     thorough = run.tier == "thorough"
+    import core
+    # tie (A): extend_namespace_map (and the NodeId kernel) regenerated from the source; never a verdict by itself
+    run.extra["translator_tie"] = core.translator_tie()
     impl_ns_helpers(run)
     if run.full():
         return
